@@ -35,11 +35,8 @@ def expected_bins(ts, st, en, b):
 def one(ctx, ts, st, en, bk, sc, unit, dtype, lines, meta):
     b = bk * sc // 2          # bin size in ns (bk half grid units)
     inp = dict(ts=ts, st=st, en=en, bin_ns=b, scale_ns=sc, unit=unit, dtype=str(dtype))
-    if sc not in EXACT and any((2 * (e - s) * sc - b) % (2 * b) == 0 and 2 * (e - s) * sc >= b for s, e in zip(st, en)):
-        # a bin centre lands exactly on an interval end: `lbound + bin_size / 2 > ends[k]` is decided by the last
-        # ulp of a non-dyadic float sum; the integer model does not decide such cases (DESIGN 2.3)
-        ctx.skip("float_ambiguous_centre_on_interval_end")
-        return
+    # (a bin centre landing exactly on an interval end used to be decided by the last ulp of a float sum on non-dyadic scales and was
+    # skipped here; since fix: the kernels round the centre to the nanosecond like every other bin edge, so these cases are checked)
     ctx.case((tuple(ts), tuple(st), tuple(en), bk, sc), inp if ctx.evaluations % 1499 == 3 else None)
     tns = [t * sc for t in ts]; sns = [s * sc for s in st]; ens = [e * sc for e in en]
     x = nap.Ts(farr(ts, sc)) if ts else nap.Ts(np.array([]))
@@ -116,6 +113,9 @@ def run(ctx):
     dtypes = [None, np.int64, np.int32, np.float64]
     for k in range(n):
         ts = ctx.rng.choice(tss); st, en = ctx.rng.choice(sets)
+        if k % 2:       # every second case lies below / straddles time 0 (sign-dependent rounding of the bin edges)
+            off = ctx.rng.choice([-3, -7])
+            ts = [v + off for v in ts]; st = [v + off for v in st]; en = [v + off for v in en]
         one(ctx, list(ts), list(st), list(en), ctx.rng.choice([1, 2, 3, 4, 7]), SCALES[k % len(SCALES)],
             ["s", "ms", "us"][k % 3], dtypes[k % 4], lines, meta)
     # longer supports: 3-4 intervals, some much shorter than the bin (shorter than HALF a bin: no bin at all) and holding samples,
@@ -127,6 +127,8 @@ def run(ctx):
         ts = sorted(ctx.rng.randrange(0, 17) for _ in range(ctx.rng.randint(0, 9)))
         if k % 2:       # put samples on the ends of the first intervals
             ts = sorted(ts + [en[0]] + ([st[0]] if k % 4 == 1 else []))
+        if k % 3 == 0:
+            ts = [v - 11 for v in ts]; st = [v - 11 for v in st]; en = [v - 11 for v in en]
         one(ctx, list(ts), list(st), list(en), ctx.rng.choice([2, 3, 5, 7, 9, 12]), SCALES[k % len(SCALES)],
             ["s", "ms", "us"][k % 3], dtypes[k % 4], lines, meta)
     for k in range(60 if ctx.quick else 600):
